@@ -1,10 +1,13 @@
 package main
 
 import (
+	"context"
 	"math/rand"
 	"strconv"
 
+	"github.com/bolkedebruin/rdpgw/cmd/rdpgw/identity"
 	"github.com/bolkedebruin/rdpgw/cmd/rdpgw/protocol"
+	"github.com/bolkedebruin/rdpgw/cmd/rdpgw/security"
 )
 
 func init() {
@@ -105,4 +108,85 @@ func streamC16(env *runEnv) {
 		env.count("c16.outcome." + strconv.Itoa(j.kind))
 		env.emit("process16", j.cfg.bits(), redirBits(j.cfg.redir), strconv.Itoa(j.cfg.idle), e.live(), itemsString(items), res.obs)
 	})
+}
+
+// c16pol: the status a denial carries when the denial comes from the REAL policy
+// handlers (security.CheckHost reports a refused host together with an error,
+// security.CheckSession reports a mismatch without one): the client must be told
+// "access denied" either way.
+func init() { streams["c16pol"] = streamC16Pol }
+
+func streamC16Pol(env *runEnv) {
+	securityMu.Lock()
+	defer securityMu.Unlock()
+	e := newL1Env(2)
+	allowed := e.pool[0].addr
+	other := e.pool[1].addr
+	for _, tok := range []bool{false, true} {
+		for _, req := range []string{allowed, other} {
+			for _, mode := range []string{"roundrobin", "unsigned", "signed", "any"} {
+				security.Hosts = []string{allowed}
+				security.HostSelection = mode
+				security.VerifyClientIP = true
+				tokhost := allowed
+				// the decision, from the policy table (C03 is what checks the table itself)
+				want := req == allowed
+				switch mode {
+				case "signed":
+					want = false
+				case "any":
+					want = true
+				}
+				if tok && req != tokhost {
+					want = false
+				}
+				ans := [4]bool{true, true, want, true}
+				host, port := splitHostPort(req)
+				ext := 0
+				if tok {
+					ext = 2
+				}
+				items := []item{
+					{data: packet(ptHandshake, handshakeBody(1, 0, 0, ext)), ans: ans},
+					{data: packet(ptTunnelCreate, tunnelCreateBody(0, "c", tok)), ans: ans},
+					{data: packet(ptTunnelAuth, tunnelAuthBody("pc")), ans: ans},
+					{data: packet(ptChannelCreate, channelCreateBody(host, port)), ans: ans},
+					{eof: true},
+				}
+				cfg := procCfg{token: tok, cookieCb: tok, hostCb: true}
+				tr := &trace{pool: e.pool}
+				mt := &memTransport{items: items, tr: tr}
+				gw := &protocol.Gateway{TokenAuth: tok}
+				id := identity.NewUser()
+				id.SetAttribute(identity.AttrClientIp, "192.0.2.7")
+				id.SetUserName("bob")
+				tun := protocol.VerifNewTunnel(mt, mt, id, "192.0.2.7:5555")
+				ctx := context.WithValue(context.Background(), protocol.CtxTunnel, tun)
+				ctx = context.WithValue(ctx, identity.CTXKey, identity.Identity(id))
+				policy := protocol.CheckHostFunc(security.CheckHost)
+				if tok {
+					gw.CheckPAACookie = func(ctx context.Context, s string) (bool, error) {
+						tr.add("AC:" + hx([]byte(s)) + ":1")
+						tun.TargetServer = tokhost
+						tun.RemoteAddr = "192.0.2.7"
+						tun.User.SetUserName("bob")
+						return true, nil
+					}
+					policy = security.CheckSession(security.CheckHost)
+				}
+				gw.CheckHost = func(ctx context.Context, h string) (bool, error) {
+					ok, err := policy(ctx, h) // the error is handed on exactly as main() wires it
+					tr.add("AH:" + hx([]byte(h)) + ":" + b01(ok))
+					return ok, err
+				}
+				p := protocol.NewProcessor(gw, tun)
+				obs := finishProcess(e, tr, mt, tun, func() error { return p.Process(ctx) })
+				env.count("c16pol." + mode)
+				env.emit("process16", cfg.bits(), redirBits(cfg.redir), "0", e.live(), itemsString(items), obs)
+				for _, b := range e.pool {
+					b.reset()
+				}
+			}
+		}
+	}
 }
